@@ -333,9 +333,14 @@ def repair_residue(molecule, ref_residue, include_graph):
             if include_graph:
                 node['graph'] = molecule.subgraph([res_idx])
             node.update(ref_node)
+            # Atoms of the reference that come from a modification carry no
+            # residue name; on a mutated residue the atoms matched to them
+            # would keep the old one.
+            node['resname'] = resname
             # Update found as well to keep found and molecule in line. It would
             # be better to try and figure why found is not a reference, but meh
             found.nodes[res_idx].update(ref_node)
+            found.nodes[res_idx]['resname'] = resname
         else:
             message = 'Missing atom {}{}:{}'
             args = (resname, resid, reference.nodes[ref_idx]['atomname'])
